@@ -207,11 +207,10 @@ def _verify_request(sig, spec, td, path, fresh, allow_mismatch_error=False, alt=
 
     try:
         ds = _from_config(spec, td)
-    except ValueError as e:
-        if allow_mismatch_error and "config mismatch" in str(e):
-            return "mismatch-error"
-        raise Violation(f"{sig}:request-raises:ValueError", str(e)[:300]) from e
     except Exception as e:  # noqa: BLE001
+        if allow_mismatch_error and core.raised_in_library(e):
+            # "a mismatch raises an error rather than silently returning other data": neither the type nor the wording is prescribed
+            return "mismatch-error"
         raise Violation(f"{sig}:request-raises:{type(e).__name__}", str(e)[:300]) from e
     got = _fp(ds)
     _cfg_matches(f"{sig}:returned-config-differs", spec, ds.cfg)
